@@ -90,6 +90,21 @@ Proof.
   intros C F. split; [apply leaf_good; exact C|]. unfold fpack_ok. cbn [leaf_sem m_sizing m_pack]. exact F.
 Qed.
 
+Lemma overlay_given_of_bools ts p :
+  overlay_top_ok ts p = true ->
+  (0 <=? ov_left p) = true -> (0 <=? ov_right p) = true -> (0 <=? ov_top p) = true -> (0 <=? ov_bottom p) = true ->
+  (match ov_wt p with WGiven _ | WRelative _ => true | _ => false end) = true ->
+  (match ov_ht p with
+   | HRelative pct => (pct <=? 100) && (match ov_minh p with Some m => 0 <=? m | None => true end)
+   | _ => true end) = true ->
+  overlay_given p.
+Proof.
+  intros H1 H2 H3 H4 H5 H6 H7. unfold overlay_given, overlay_top_ok in *.
+  destruct (ov_wt p) eqn:EW; try discriminate;
+    (split; [cbn in *; lia|]); repeat (split; [lia|]);
+    destruct (ov_ht p); auto; destruct (ov_minh p); lia.
+Qed.
+
 Theorem contract_by_structural_induction :
   forall w, wf_b w = true -> proved_fragment w = true -> leaves_ok w -> Good (denote w).
 Proof.
@@ -122,13 +137,10 @@ Proof.
     + apply IHh; auto; lia.
     + apply IHf; auto; lia.
   - (* overlay *) intros t IHt b IHb p Hw Hf Hl. destruct Hl as [L1 L2].
-    apply overlay_good; try lia.
-    + apply IHt; auto; lia.
-    + apply IHb; auto; lia.
-    + unfold overlay_given. unfold overlay_top_ok in Hw.
-      destruct (ov_wt p) eqn:EW; try (exfalso; lia);
-        (split; [cbn in *; lia|]); repeat (split; [lia|]);
-        destruct (ov_ht p); auto; destruct (ov_minh p); lia.
+    repeat match type of Hw with (_ && _) = true => apply andb_prop in Hw; let H := fresh "W" in destruct Hw as [Hw H] end.
+    repeat match type of Hf with (_ && _) = true => apply andb_prop in Hf; let H := fresh "P" in destruct Hf as [Hf H] end.
+    apply overlay_good; auto.
+    eapply overlay_given_of_bools; eauto.
   - (* PNil *) intros ps _ _ _. split; constructor.
   - (* PCons *) intros w IHw k n r IHr ps Hw Hf Hl. cbn [wf_p proved_fragment_p leaves_ok_p denote_p] in *.
     destruct Hl as [Hl1 Hl2].
@@ -139,18 +151,24 @@ Proof.
   - (* CNil *) intros cs _ _ _. split; constructor.
   - (* CCons *) intros w IHw k n b r IHr cs Hw Hf Hl.
     cbn [wf_c proved_fragment_c leaves_ok_c denote_c] in *. destruct Hl as [Hl1 Hl2].
-    destruct (IHr cs ltac:(lia) ltac:(lia) Hl2) as [A B].
-    assert (G : Good (denote w)) by (apply IHw; auto; lia).
+    apply andb_prop in Hw. destruct Hw as [Hw Hw3]. apply andb_prop in Hw. destruct Hw as [Hw1 Hw2].
+    apply andb_prop in Hf. destruct Hf as [Hf Hf4]. apply andb_prop in Hf. destruct Hf as [Hf Hf3].
+    apply andb_prop in Hf. destruct Hf as [Hf1 Hf2].
+    destruct (IHr cs Hw3 Hf4 Hl2) as [A B].
+    assert (G : Good (denote w)) by (apply IHw; auto).
     split; constructor; auto.
     + unfold cgood. cbn [ci_sem ci_kind]. split; [exact G|]. intros ->.
       destruct (s_fixed (m_sizing (denote w))) eqn:EF.
       * apply leafish_fpack; auto. lia.
       * unfold fpack_ok. rewrite EF. discriminate.
-    + unfold cols_item_ok, cols_child_ok in *. cbn [ci_sem ci_kind ci_amount ci_box].
-      unfold impb in Hw. repeat split.
+    + unfold cols_item_ok. cbn [ci_sem ci_kind ci_amount ci_box].
+      unfold cols_child_ok in Hw2.
+      apply andb_prop in Hw2. destruct Hw2 as [Hw2 _]. apply andb_prop in Hw2. destruct Hw2 as [Hw2 _].
+      apply andb_prop in Hw2. destruct Hw2 as [Ka Kb].
+      repeat split.
       * destruct k; lia.
-      * destruct b; [lia|]. intros Hcs. rewrite Hcs in Hf. cbn in Hf. lia.
-      * intros Hcs. rewrite Hcs in Hw. cbn in Hw. lia.
+      * destruct b; [exact Hf3|]. intros Hcs. rewrite Hcs in Hf3. cbn in Hf3. exact Hf3.
+      * intros Hcs. rewrite Hcs in Kb. cbn in Kb. exact Kb.
   - (* OSome *) intros w IH Hw Hf Hl. cbn [wf_o proved_fragment_o leaves_ok_o denote_o opt_flow_good] in *.
     split; [apply IH; auto; lia|lia].
 Qed.
